@@ -9,6 +9,7 @@ import (
 	"github.com/ipfs/go-graphsync"
 	"github.com/ipfs/go-graphsync/dedupkey"
 	gsimpl "github.com/ipfs/go-graphsync/impl"
+	gsmsg "github.com/ipfs/go-graphsync/message"
 	"github.com/ipfs/go-graphsync/zzverif/vsched"
 	"github.com/ipld/go-ipld-prime"
 	"github.com/libp2p/go-libp2p/core/peer"
@@ -30,12 +31,16 @@ type c20Case struct {
 	N          int    `json:"requests"`
 	Gated      bool   `json:"event_level"`
 	PauseFirst bool   `json:"first_request_paused_by_block_hook,omitempty"` // the first request pauses itself at its first block and is never resumed
+	HoldFirst  bool   `json:"responders_first_send_stalls,omitempty"`       // the responder\'s first message stalls until all responses are queued behind it (they travel batched)
 }
 
 func (c c20Case) String() string {
 	p := ""
 	if c.PauseFirst {
 		p = "; the first request pauses itself at its first block"
+	}
+	if c.HoldFirst {
+		p += "; the responder's first send stalls so that the responses are batched, and the first request's block hook is slow"
 	}
 	return fmt.Sprintf("%d requests (%s) selector %s workers Q=%d R=%d dedup keys %s%s", c.N, c.Pair, c.Sel, c.Workers[0], c.Workers[1], c.Keys, p)
 }
@@ -52,6 +57,7 @@ type c20Obs struct {
 	store    string
 	panicked string
 	events   int
+	wire     []string
 }
 
 // c20World builds the DAG and the roots the requests ask for.
@@ -98,6 +104,28 @@ func c20Run(cfg vsched.Config, cs c20Case, only int) (*c20Obs, *vsched.Sched) {
 				}
 			})
 		}
+		gate := make(chan struct{})
+		if cs.HoldFirst && only < 0 {
+			// ... and the first request's block hook is slow from its second block on: it stalls until the
+			// other requests had their chance (a slow consumer; the others must not depend on it)
+			nblk := 0
+			q.GS.RegisterIncomingBlockHook(func(p peer.ID, rd graphsync.ResponseData, b graphsync.BlockData, ha graphsync.IncomingBlockHookActions) {
+				if rd.RequestID() == harness.MkID(70) {
+					nblk++
+					if nblk == 2 {
+						<-gate
+					}
+				}
+			})
+		}
+		if cs.HoldFirst {
+			f.Net.SendFault = func(from, to peer.ID, k int, m gsmsg.GraphSyncMessage) harness.FaultAction {
+				if from == r.ID && k == 0 {
+					return harness.SendHold
+				}
+				return harness.SendOK
+			}
+		}
 		vsched.Quiesce()
 		vsched.Mark()
 		var res []*harness.ReqResult
@@ -123,6 +151,18 @@ func c20Run(cfg vsched.Config, cs c20Case, only int) (*c20Obs, *vsched.Sched) {
 		if cs.Gated {
 			o.events = len(harness.RunEvents(f.Deliveries(q.ID, r.ID), 400))
 		}
+		if cs.HoldFirst {
+			f.Net.ReleaseHeld()
+			vsched.Quiesce()
+			if cs.Gated {
+				o.events += len(harness.RunEvents(f.Deliveries(q.ID, r.ID), 400))
+			}
+			close(gate)
+			vsched.Quiesce()
+			if cs.Gated {
+				o.events += len(harness.RunEvents(f.Deliveries(q.ID, r.ID), 400))
+			}
+		}
 		for _, rr := range res {
 			x := c20Req{visits: harness.VisitsString(rr.Visits), closed: rr.Closed()}
 			for _, e := range rr.ErrStrings(d) {
@@ -136,6 +176,15 @@ func c20Run(cfg vsched.Config, cs c20Case, only int) (*c20Obs, *vsched.Sched) {
 			o.reqs = append(o.reqs, x)
 		}
 		o.store = strings.Join(qs.Keys(), ",")
+		for _, w := range f.Net.Wire {
+			if w.From == r.ID {
+				var parts []string
+				for _, rsp := range w.Msg.Responses() {
+					parts = append(parts, fmt.Sprintf("%s:%dmd", harness.ShortID(rsp.RequestID()), rsp.Metadata().Length()))
+				}
+				o.wire = append(o.wire, fmt.Sprintf("[%s %dblk]", strings.Join(parts, " "), len(w.Msg.Blocks())))
+			}
+		}
 		f.Cancel()
 	})
 	if s.Panic != nil {
@@ -214,6 +263,7 @@ func c20Cases(thorough bool) []c20Case {
 						out = append(out, c20Case{Pair: pair, Sel: sn, Workers: w, Keys: keys, N: n})
 						if w[0] == 2 && (thorough || w[1] == 2) {
 							out = append(out, c20Case{Pair: pair, Sel: sn, Workers: w, Keys: keys, N: n, PauseFirst: true})
+							out = append(out, c20Case{Pair: pair, Sel: sn, Workers: w, Keys: keys, N: n, HoldFirst: true})
 						}
 					}
 				}
@@ -241,7 +291,11 @@ func runC20(c *core.Ctx) {
 		// event level: all orders of message deliveries within the bound
 		ev := cs
 		ev.Gated = true
-		c.Explore(core.ExploreOpts{MaxBound: eb, Cost: core.Deviation, Label: ev, NoShard: true, MaxExecs: 20000,
+		ebb := eb
+		if cs.N == 3 && !c.Thorough() {
+			ebb = 1
+		}
+		c.Explore(core.ExploreOpts{MaxBound: ebb, Cost: core.Deviation, Label: ev, NoShard: true, MaxExecs: 20000,
 			Filter: func(p vsched.Point) bool { return p.Env }}, func(cfg vsched.Config) core.Exec {
 			o, s := c20Run(cfg, ev, -1)
 			return core.Exec{Sched: s, Outcome: fmt.Sprintf("event-level %s keys=%s events=%d", cs.Pair, cs.Keys, o.events), Viol: c20Judge(ev, o)}
@@ -276,6 +330,6 @@ func init() {
 			if v := c20Judge(w.Label, o); v != nil {
 				return v.Signature + ": " + v.What
 			}
-			return "ok"
+			return fmt.Sprintf("ok (events=%d wire=%v)", o.events, o.wire)
 		}})
 }
